@@ -70,6 +70,7 @@ type world struct {
 	nums   []float64
 	nDocs  int
 	engine string
+	docs   []*Doc // every document body generated for the history
 	// steer: keep randomly generated trees out of the two signature classes (those shapes are
 	// generated as separate small cases, see gen)
 	steer bool
@@ -137,6 +138,7 @@ func (w *world) doc() *Doc {
 			d.B = append(d.B, r.Bool())
 		}
 	}
+	w.docs = append(w.docs, d)
 	return d
 }
 
@@ -293,16 +295,102 @@ func (w *world) regex(d int, safe bool) *RX {
 	}
 }
 
+var leafKinds = []string{"term", "match", "phrase", "matchphrase", "multiphrase", "prefix", "wildcard", "regexp",
+	"fuzzy", "termrange", "numrange", "daterange", "bool", "docids", "all", "none"}
+
+// weights of the leaf kinds in random trees
+var leafWeights = []int{6, 3, 2, 2, 1, 2, 2, 2, 3, 2, 2, 1, 1, 2, 1, 1}
+
 func (w *world) leaf() *QN {
+	tot := 0
+	for _, x := range leafWeights {
+		tot += x
+	}
+	n := w.r.Intn(tot)
+	for i, x := range leafWeights {
+		if n < x {
+			return w.leafOf(leafKinds[i])
+		}
+		n -= x
+	}
+	return w.leafOf("term")
+}
+
+// wordsOf: the words of one text value of some generated document of field f (f = t or u)
+func (w *world) wordsOf(f string, minElems int) (elems [][]string) {
+	for try := 0; try < 8 && len(w.docs) > 0; try++ {
+		d := vrand.Pick(w.r, w.docs)
+		vals := d.T
+		if f == "u" {
+			vals = d.U
+		}
+		if len(vals) < minElems {
+			continue
+		}
+		for _, v := range vals {
+			elems = append(elems, analyse(f, v))
+		}
+		return elems
+	}
+	return nil
+}
+
+// phraseWords: words for a phrase query — consecutive words of a document value (should
+// match), words at consecutive positions of two DIFFERENT array elements (must not match
+// through that document), or random words
+func (w *world) phraseWords(f string) []string {
+	r := w.r
+	switch r.Intn(10) {
+	case 0, 1, 2, 3, 4:
+		if el := w.wordsOf(f, 1); el != nil {
+			ws := vrand.Pick(r, el)
+			if len(ws) > 0 {
+				i := r.Intn(len(ws))
+				j := i + r.Range(1, 3)
+				if j > len(ws) {
+					j = len(ws)
+				}
+				return append([]string{}, ws[i:j]...)
+			}
+		}
+	case 5, 6, 7:
+		if el := w.wordsOf(f, 2); el != nil {
+			a, b := el[0], el[1]
+			if r.Bool() {
+				a, b = b, a
+			}
+			for p := 0; p < len(a) && p+1 < len(b); p++ {
+				if r.Chance(1, 2) || p+2 >= len(b) {
+					return []string{a[p], b[p+1]}
+				}
+			}
+		}
+	}
+	n := r.Range(1, 3)
+	ws := make([]string, n)
+	for i := range ws {
+		ws[i] = w.word()
+	}
+	return ws
+}
+
+func (w *world) rangeEnd() string {
+	if w.r.Chance(3, 4) {
+		return w.word()
+	}
+	return w.nearTerm()
+}
+
+func (w *world) leafOf(kind string) *QN {
 	r := w.r
 	f := w.textField()
-	switch r.Intn(34) {
-	case 0, 1, 2, 3, 4, 5:
+	switch kind {
+	case "term":
 		if r.Chance(1, 15) {
 			return &QN{K: "term", F: "zz", T: w.word()} // no such field
 		}
 		return &QN{K: "term", F: f, T: w.termFor(f)}
-	case 6, 7, 8:
+	case "match":
 		q := &QN{K: "match", F: f, And: r.Bool()}
 		if f == "k" {
 			q.T = w.termFor(f)
@@ -317,39 +405,48 @@ func (w *world) leaf() *QN {
 			q.Pre = r.Range(0, 2)
 		}
 		return q
-	case 9, 10:
+	case "phrase":
 		f = vrand.Pick(r, []string{"t", "t", "u", "k"})
 		q := &QN{K: "phrase", F: f}
-		n := r.Range(1, 3)
-		for i := 0; i < n; i++ {
-			if r.Chance(1, 8) {
-				q.Terms = append(q.Terms, "")
-			} else {
-				q.Terms = append(q.Terms, w.word())
+		if f == "k" {
+			q.Terms = []string{w.termFor(f)}
+			if r.Chance(1, 3) {
+				q.Terms = append(q.Terms, w.termFor(f))
 			}
+		} else {
+			q.Terms = w.phraseWords(f)
+		}
+		if r.Chance(1, 6) { // a placeholder somewhere
+			i := r.Intn(len(q.Terms) + 1)
+			q.Terms = append(q.Terms[:i], append([]string{""}, q.Terms[i:]...)...)
 		}
 		if r.Chance(1, 5) {
 			w.fuzzOpts(q, 1)
 		}
 		return q
-	case 11, 12:
+	case "matchphrase":
 		f = vrand.Pick(r, []string{"t", "t", "u"})
-		q := &QN{K: "matchphrase", F: f, T: w.text(3)}
+		ws := w.phraseWords(f)
+		for i := range ws {
+			ws[i] = w.maybeCap(ws[i])
+		}
+		q := &QN{K: "matchphrase", F: f, T: strings.Join(ws, " ")}
 		if r.Chance(1, 6) {
 			w.fuzzOpts(q, 1)
 		}
 		return q
-	case 13:
+	case "multiphrase":
 		f = vrand.Pick(r, []string{"t", "t", "u"})
 		q := &QN{K: "multiphrase", F: f}
-		n := r.Range(1, 3)
-		for i := 0; i < n; i++ {
-			var slot []string
-			for j := r.Range(0, 2); j > 0; j-- {
-				slot = append(slot, w.word())
-			}
-			if slot == nil {
+		for _, x := range w.phraseWords(f) {
+			slot := []string{x}
+			switch r.Intn(6) {
+			case 0:
 				slot = []string{}
+			case 1, 2:
+				slot = append(slot, w.word())
+			case 3:
+				slot = []string{w.word(), w.word()}
 			}
 			q.Slots = append(q.Slots, slot)
 		}
@@ -357,20 +454,36 @@ func (w *world) leaf() *QN {
 			w.fuzzOpts(q, 1)
 		}
 		return q
-	case 14, 15:
+	case "prefix":
 		t := w.termFor(f)
 		lo := 0
 		if w.steer && w.engine == "upsidedown" {
 			lo = 1 // the empty prefix on upsidedown is generated separately (class prefix-empty-upsidedown)
 		}
 		return &QN{K: "prefix", F: f, T: t[:r.Range(lo, len(t))]}
-	case 16, 17:
-		pats := []string{"a*", "*b", "a?", "?b*", "*", "a*c", "??", "*a*", "ab?", "?", "c*b", "x*", "a?c*"}
-		return &QN{K: "wildcard", F: f, T: vrand.Pick(r, pats)}
-	case 18, 19:
+	case "wildcard":
+		if r.Chance(1, 2) {
+			pats := []string{"a*", "*b", "a?", "?b*", "*", "a*c", "??", "*a*", "ab?", "?", "c*b", "x*", "a?c*"}
+			return &QN{K: "wildcard", F: f, T: vrand.Pick(r, pats)}
+		}
+		t := []byte(w.word())
+		switch r.Intn(4) {
+		case 0:
+			t[r.Intn(len(t))] = '?'
+		case 1:
+			t = append(t[:r.Intn(len(t)+1)], '*')
+		case 2:
+			i := r.Intn(len(t))
+			t = append([]byte("*"), t[i:]...)
+		default:
+			i := r.Intn(len(t))
+			t = append(append(append([]byte{}, t[:i]...), '*'), t[i:]...)
+		}
+		return &QN{K: "wildcard", F: f, T: string(t)}
+	case "regexp":
 		safe := w.steer && w.engine == "upsidedown"
 		return &QN{K: "regexp", F: f, Rx: w.regex(r.Range(1, 3), safe)}
-	case 20, 21, 22:
+	case "fuzzy":
 		q := &QN{K: "fuzzy", F: f, T: w.nearTerm(), Pre: r.Range(0, 3)}
 		if r.Chance(1, 2) {
 			q.Pre = 0
@@ -382,9 +495,9 @@ func (w *world) leaf() *QN {
 			q.Fz = r.Range(0, 2)
 		}
 		return q
-	case 23, 24:
+	case "termrange":
 		q := &QN{K: "termrange", F: f, ILo: w.optFlag(), IHi: w.optFlag()}
-		lo, hi := w.nearTerm(), w.nearTerm()
+		lo, hi := w.rangeEnd(), w.rangeEnd()
 		if r.Chance(3, 4) && lo > hi {
 			lo, hi = hi, lo
 		}
@@ -397,7 +510,7 @@ func (w *world) leaf() *QN {
 			q.Lo, q.Hi = &lo, &hi
 		}
 		return q
-	case 25, 26:
+	case "numrange":
 		q := &QN{K: "numrange", F: "n", ILo: w.optFlag(), IHi: w.optFlag()}
 		pt := func() *uint64 {
 			v := vrand.Pick(r, w.nums)
@@ -420,7 +533,7 @@ func (w *world) leaf() *QN {
 			q.NLo, q.NHi = lo, hi
 		}
 		return q
-	case 27:
+	case "daterange":
 		q := &QN{K: "daterange", F: "d", ILo: w.optFlag(), IHi: w.optFlag()}
 		lo, hi := w.date(), w.date()
 		if r.Chance(3, 4) && lo > hi {
@@ -435,20 +548,20 @@ func (w *world) leaf() *QN {
 			q.DLo, q.DHi = &lo, &hi
 		}
 		return q
-	case 28:
+	case "bool":
 		return &QN{K: "bool", F: "b", V: r.Bool()}
-	case 29, 30:
+	case "docids":
 		q := &QN{K: "docids", IDs: []int{}}
 		for i := r.Range(0, 4); i > 0; i-- {
 			q.IDs = append(q.IDs, r.Intn(w.nDocs+2))
 		}
 		return q
-	case 31:
+	case "all":
 		return &QN{K: "all"}
-	case 32:
+	case "none":
 		return &QN{K: "none"}
 	}
-	return &QN{K: "term", F: f, T: w.termFor(f)}
+	panic("bad leaf kind " + kind)
 }
 
 // kids: a clause list; big lists (crossing searcher.DisjunctionHeapTakeover) hold leaves only
@@ -553,7 +666,7 @@ func validate(q *QN) (ok bool) {
 	return true
 }
 
-var engines = []string{"scorch-mem", "scorch-disk", "upsidedown", "scorch-mem"}
+var engines = []string{"scorch-mem", "scorch-disk", "upsidedown", "scorch-mem", "upsidedown", "scorch-mem"}
 
 func gen(f vh.Flags, r *vrand.R, emit func(In)) {
 	thorough := f.Tier == "thorough"
@@ -579,6 +692,24 @@ func gen(f vh.Flags, r *vrand.R, emit func(In)) {
 			}
 			emit(In{Kind: "main", Engine: engine, Batches: batches, Q: q})
 			emitted++
+		}
+	}
+	// 1b. single leaves of every kind, with parameters aimed at the documents
+	nLeafCorpora := f.N(32, 1600)
+	kindAt := 0
+	for ci := 0; ci < nLeafCorpora; ci++ {
+		engine := engines[(ci+1)%len(engines)]
+		w := newWorld(r.Fork(), engine, r.Range(5, 10))
+		batches := w.history()
+		for k := 0; k < 5; k++ {
+			q := w.leafOf(leafKinds[kindAt%len(leafKinds)])
+			kindAt++
+			if k == 4 && r.Chance(1, 2) { // the same leaf under a must-not, so that misses show as extra hits
+				q = &QN{K: "boolean", HasMustNot: true, MustNot: []*QN{q}}
+			}
+			if validate(q) {
+				emit(In{Kind: "leaf", Engine: engine, Batches: batches, Q: q})
+			}
 		}
 	}
 	// 2. the signature classes, as separate small directed cases
